@@ -252,7 +252,7 @@ REGISTRY["C18"] = c18
 # C11: comments, layout and listing options never affect behaviour
 # ---------------------------------------------------------------------------------------------
 DECO_TEXT = {
-    "space": " ", "tab": "\t", "newline": "\n", "crlf": "\r\n", "blank2": "\n \n", "splice": "\\\n",
+    "space": " ", "tab": "\t", "newline": "\n", "crlf": "\r\n", "blank2": "\n \n", "splice": "\\\n", "splice_crlf": "\\\r\n", "splice2": "\\\n\\\n",
     "blk_plain": "/* note */", "blk_dq": '/* " */', "blk_sq": "/* ' */", "blk_slsl": "/* // not a line comment */", "blk_open": "/* /* still one comment */",
     "blk_define": "/* #define X 1 */", "blk_url": "/* http://x/*y */", "blk_stars": "/*** boxed ***/", "blk_multi": "/* first\n * second\n */", "blk_tight": "/*c*/",
     "line_plain": "// note\n", "line_dq": '// "quoted\n', "line_blk": "// /* not a block\n", "line_end": "// */ stray\n", "line_define": "//#define X 1\n",
